@@ -159,6 +159,14 @@ PROPS = {
         'design_ref': 'DESIGN.md 5 C10',
         'explanation': 'Base58Check layer proved over an assumed codec; the codec itself (encode/decode = reference, mutual inverses) is a bounded check',
     },
+    'C11': {
+        'modules': ['contracts.c11'],
+        'level': 'other',
+        'trusted_base': COMMON_TB,
+        'assumptions': [],
+        'level_text': 'wip', 'level_note': 'wip', 'design_ref': 'DESIGN.md 5 C11',
+        'explanation': 'bech32 contracts',
+    },
     'C12': {
         'modules': ['contracts.c12'],
         'level': 'other',
@@ -230,6 +238,35 @@ PROPS = {
         'level_note': 'trusted: pyvc, z3/cvc5, hash functions uninterpreted, C01/C02 contracts, specs/merkle.py',
         'design_ref': 'DESIGN.md 5 C15',
         'explanation': 'merkle contracts',
+    },
+    'C16': {
+        'modules': ['contracts.c16'],
+        'level': 'proof',
+        'trusted_base': COMMON_TB,
+        'assumptions': [
+            'SHA-256 uninterpreted (same symbol in code and spec)',
+            'C01/C02/C08/C15/C17 contracts (re-verified inside this check) used at call sites',
+            'set membership/insertion of txids and outpoints: abstract set model (membership of an inserted key is '
+            'true, nothing else is known) - the no-duplicate clauses are therefore only checked by the bounded units',
+            'time.time() is not called (cur_time is given); MAX_BLOCK_SIGOPS = 20000.0 compared as the integer 20000',
+        ],
+        'level_text': 'PROVED for all inputs: MoneyRange; CheckTransaction raises only CheckTransactionError and returns '
+                      'normally exactly when the transaction rule without the no-double-spend clause holds (non-empty, '
+                      'stripped size, every value and running total in range, coinbase script 2..100 or no null prevout); '
+                      'GetLegacySigOpCount never raises and equals the reference total over all scripts; CheckBlock '
+                      '(4 chains) raises nothing outside the ValidationError family - no IndexError, no script error - '
+                      'and every accepted block has: timestamp <= cur_time + 7200, PoW rule if requested, non-empty, '
+                      'stripped size <= 1,000,000 and weight <= 4,000,000, exactly its first transaction a coinbase, '
+                      'EVERY transaction incl. the coinbase passing the transaction rule, total legacy sigops incl. the '
+                      'coinbase <= 20,000, declared merkle root = reference root if requested. '
+                      'BOUNDED (not proved): the exact accept/reject equivalence of CheckTransaction incl. duplicate '
+                      'inputs and of CheckBlock incl. txid uniqueness and the BIP141 witness commitment, against '
+                      'executable references on generated valid objects and a catalogue of single-rule violations '
+                      '(400 resp. 800 cases per chain in quick, x10 in thorough).',
+        'level_note': 'trusted: pyvc, z3/cvc5, hash functions uninterpreted, abstract set model, specs/checks.py; '
+                      'the converse direction (no spurious rejection) and the duplicate/commitment clauses are bounded',
+        'design_ref': 'DESIGN.md 5 C16',
+        'explanation': 'contracts on MoneyRange, CheckTransaction, GetLegacySigOpCount, CheckBlock; bounded full-rule units',
     },
     'C17': {
         'modules': ['contracts.c17'],
